@@ -17,15 +17,15 @@ open B
 
 namespace Fcgi
 
-abbrev maxLen : Nat := Extracted.fcgiMaxLength
-abbrev tBegin : Nat := Extracted.fcgiBeginRequest
-abbrev tParams : Nat := Extracted.fcgiParams
-abbrev tStdin : Nat := Extracted.fcgiStdin
+abbrev maxLen : Nat := Extracted.C09.fcgiMaxLength
+abbrev tBegin : Nat := Extracted.C09.fcgiBeginRequest
+abbrev tParams : Nat := Extracted.C09.fcgiParams
+abbrev tStdin : Nat := Extracted.C09.fcgiStdin
 
 /-- fcgi_header(): version, type, requestIdB1, requestIdB0, contentLengthB1, contentLengthB0,
     paddingLength, reserved -/
 def header (type reqId len pad : Nat) : Bytes :=
-  [Extracted.fcgiVersion.toUInt8, type.toUInt8, (reqId / 256 % 256).toUInt8, (reqId % 256).toUInt8,
+  [Extracted.C09.fcgiVersion.toUInt8, type.toUInt8, (reqId / 256 % 256).toUInt8, (reqId % 256).toUInt8,
    (len / 256 % 256).toUInt8, (len % 256).toUInt8, pad.toUInt8, 0]
 
 /-- one record with content `c` (no padding; lighttpd never pads) -/
@@ -81,15 +81,15 @@ def stdinRecs (reqId : Nat) (cs : List Bytes) : Bytes := cs.flatMap (record tStd
 
 /-- fcgi_stdin_append() -/
 def stdinAppend (authorizer upgrade : Bool) (st : St) : St :=
-  let n := if authorizer then 0 else min st.pending.length Extracted.maxWriteLimit
+  let n := if authorizer then 0 else min st.pending.length Extracted.C09.maxWriteLimit
   let cs := chunksOf maxLen n (st.pending.take n)
   let out1 := st.out ++ stdinRecs 1 cs
-  let k : Int := (Extracted.fcgiHeaderLen * cs.length : Nat)
+  let k : Int := (Extracted.C09.fcgiHeaderLen * cs.length : Nat)
   let reqlen1 : Int :=
     if st.reqlen = -1 then st.reqlen else if st.reqlen ≥ 0 then st.reqlen + k else st.reqlen - k
   let pending1 := st.pending.drop n
   if (out1.length : Int) = reqlen1 ∧ !upgrade then
-    { out := out1 ++ header tStdin 1 0 0, reqlen := reqlen1 + Extracted.fcgiHeaderLen,
+    { out := out1 ++ header tStdin 1 0 0, reqlen := reqlen1 + Extracted.C09.fcgiHeaderLen,
       pending := pending1 }
   else { out := out1, reqlen := reqlen1, pending := pending1 }
 
@@ -101,7 +101,7 @@ def head (role : Nat) (params : Bytes) : Bytes :=
     `pending` = what is in r->reqbody_queue at that moment.  `none` = 400. -/
 def createEnv (role : Nat) (upgrade : Bool) (env : List (Bytes × Bytes)) (bodyLen : Int)
     (pending : Bytes) : Option St :=
-  let authorizer := role = Extracted.gwAuthorizer
+  let authorizer := role = Extracted.C09.gwAuthorizer
   match addAll [] env with
   | none => none
   | some params =>
@@ -133,7 +133,7 @@ def complete (authorizer upgrade : Bool) (st : St) : St :=
 /-- whole request: create_env with the first segment present, then the other segments -/
 def run (role : Nat) (upgrade : Bool) (env : List (Bytes × Bytes)) (bodyLen : Int)
     (seg0 : Bytes) (segs : List Bytes) : Option St :=
-  let authorizer := role = Extracted.gwAuthorizer
+  let authorizer := role = Extracted.C09.gwAuthorizer
   match createEnv role upgrade env bodyLen seg0 with
   | none => none
   | some st =>
@@ -156,7 +156,7 @@ def decodeRecords : Nat → Bytes → Option (List Rec)
     | [] => some []
     | v :: t :: r1 :: r0 :: l1 :: l0 :: pad :: _ :: rest =>
       let len := l1.toNat * 256 + l0.toNat
-      if v.toNat ≠ Extracted.fcgiVersion then none
+      if v.toNat ≠ Extracted.C09.fcgiVersion then none
       else if rest.length < len + pad.toNat then none
       else
         match decodeRecords fuel (rest.drop (len + pad.toNat)) with
